@@ -201,6 +201,37 @@ class World:
         wire = m.encode()
         return Message.decode(wire, self.remote(ep))
 
+    def make_direct(self, n):
+        """bare Block1Spool / Block2Cache pairs (no Resource around them)"""
+        from aiocoap.blockwise import Block1Spool, Block2Cache
+        self.direct = [(Block1Spool(), Block2Cache()) for _ in range(n)]
+
+    def request_direct(self, res_index, assemble, msg, script_response):
+        """The same request against a bare spool/cache pair, wired as `_render_to_pipe` wires
+        them; exceptions are reported by class and rendered with their own `to_message`."""
+        from aiocoap import Message, error
+        spool, cache = self.direct[res_index]
+        self.script_response = script_response
+        n_before = len(self.seen_snap)
+        render = self.resources[0].render
+
+        async def go():
+            try:
+                if assemble:
+                    req = spool.feed_and_take(msg)
+                    res = await cache.extract_or_insert(req, lambda: render(req))
+                    res.opt.block1 = req.opt.block1
+                else:
+                    res = await render(msg)
+                return res, None
+            except error.RenderableError as e:
+                return e.to_message(), type(e).__name__
+            except Exception as e:
+                return Message(code=self.aiocoap.Code(160)), "escaped:" + type(e).__name__
+
+        res, exc = self.loop.run_until_complete(go())
+        return res, exc, self.seen_snap[n_before:]
+
     def request(self, res_index, assemble, msg, script_response):
         """One request through the real `render_to_pipe` behind the real `error_to_message`.
         Returns (response message, exception class name or None, list of handler snapshots)."""
